@@ -173,3 +173,47 @@ func VerifC20PostprocessParsed(prefix string, names, parsed []string) []string {
 	}
 	return result
 }
+
+// VerifC20MergeACL parses Netspoc config and raw (or IPv6) config, merges
+// both and returns for each ACL its name followed by the original lines in
+// merged order. ASA: commands of prefix "access-list", IOS: subcommands of
+// first command of prefix "ip access-list extended".
+func (s *State) VerifC20MergeACL(spoc, raw []byte, rawName string) (
+	[]string, error) {
+
+	c1, err := s.parser.ParseConfig(spoc, "router")
+	if c1 == nil {
+		return nil, err
+	}
+	c2, err := s.parser.ParseConfig(raw, rawName)
+	if c2 == nil {
+		return nil, err
+	}
+	cf := c1.MergeSpoc(c2).(*Config)
+	var dump []string
+	for _, prefix := range []string{"access-list", "ip access-list extended"} {
+		m := cf.lookup[prefix]
+		var names []string
+		for n := range m {
+			names = append(names, n)
+		}
+		sort.Strings(names)
+		for _, n := range names {
+			l := m[n]
+			if prefix == "access-list" {
+				e := n
+				for _, c := range l {
+					e += "|" + c.orig
+				}
+				dump = append(dump, e)
+			} else {
+				e := n
+				for _, c := range l[0].sub {
+					e += "|" + c.orig
+				}
+				dump = append(dump, e)
+			}
+		}
+	}
+	return dump, nil
+}
